@@ -136,6 +136,28 @@ pub unsafe fn ghost_dealloc_nn(ptr: core::ptr::NonNull<u8>, layout: Layout) {
     ghost_dealloc(ptr.as_ptr(), layout)
 }
 
+/// proof_for_contract harnesses start from HAVOCKED statics (Kani assumes nothing about global
+/// state when checking a contract): put the ghost state back into its initial configuration.
+pub fn ghost_reset() {
+    unsafe {
+        G_ON = false;
+        G_N = 0;
+        G_ALLOCS = 0;
+        G_DEALLOCS = 0;
+        G_OK = true;
+        G_FAIL_AT = 0;
+        G_FORBID_ALLOC = false;
+        G_LIVE = [false; GN];
+        DROPS = 0;
+        CLONES = 0;
+        NEXT_ID = 0;
+        BAD_DROP = false;
+        ISSUED = [false; IDN];
+        DROPPED = [false; IDN];
+        DROPS_KIND = [0; 4];
+        crate::vrt::atomic::reset();
+    }
+}
 pub fn g_on() -> bool {
     unsafe { G_ON }
 }
